@@ -63,6 +63,21 @@ func (core *JApiCore) buildUserTypes() *jerr.JApiError {
 		return adoptError(err)
 	}
 
+	// Add rules to every user type before any of them is used: looking for the
+	// types used by one type loads all the types it depends on, and a rule
+	// cannot be added to a loaded schema.
+	err = core.userTypes.Each(func(n string, ut schema.Schema) error {
+		for rn, r := range core.rules {
+			if err := ut.AddRule(rn, r); err != nil {
+				return jschemaToJAPIError(err, core.rawUserTypes.GetValue(n))
+			}
+		}
+		return nil
+	})
+	if err != nil {
+		return adoptError(err)
+	}
+
 	err = core.userTypes.Each(func(n string, _ schema.Schema) error {
 		return core.compileUserTypeWithAllDependencies(n)
 	})
@@ -82,13 +97,6 @@ func (core *JApiCore) compileUserTypeWithAllDependencies(name string) error {
 	}
 
 	dd := core.rawUserTypes
-
-	// Add rules before we try to do something with the type.
-	for n, r := range core.rules {
-		if err := currUT.AddRule(n, r); err != nil {
-			return jschemaToJAPIError(err, dd.GetValue(n))
-		}
-	}
 
 	tt, err := fetchUsedUserTypes(currUT, core.userTypes)
 	if err != nil {
